@@ -22,7 +22,14 @@ type Mutation { a: Int b: T c: [T] d: [Int] e: T }
 type T { a: Int b: T c: [T] d: [Int] e: T }";
 
 #[derive(Clone, Debug)]
-enum Plan { Leaf(u64), Error, Obj(Vec<FieldPlan>), List(Vec<(usize, Plan)>) }
+enum Plan {
+    Leaf(u64), Error, Obj(Vec<FieldPlan>), List(Vec<(usize, Plan)>),
+    // outside the Lean model's plan language (oracle-only cases, audit G5):
+    /// the resolver returns a JSON null
+    Null,
+    /// a list whose stream is pending `tail` more times before it ends
+    ListTail(Vec<(usize, Plan)>, usize),
+}
 #[derive(Clone, Debug)]
 struct FieldPlan { key: String, delay: usize, plan: Plan }
 
@@ -74,6 +81,8 @@ fn enc_plan(p: &Plan, out: &mut String) {
         Plan::Error => out.push('E'),
         Plan::Obj(fs) => { out.push('O'); enc_fields(fs, out); }
         Plan::List(items) => { out.push('A'); for (d, p) in items { out.push_str(&format!("I{d},")); enc_plan(p, out); } out.push('.'); }
+        Plan::Null => out.push('N'),
+        Plan::ListTail(items, t) => { out.push('A'); for (d, p) in items { out.push_str(&format!("I{d},")); enc_plan(p, out); } out.push_str(&format!("T{t}.")); }
     }
 }
 fn enc_fields(fs: &[FieldPlan], out: &mut String) {
@@ -81,7 +90,7 @@ fn enc_fields(fs: &[FieldPlan], out: &mut String) {
     out.push('.');
 }
 fn count_delays(fs: &[FieldPlan]) -> usize {
-    fn p(pl: &Plan) -> usize { match pl { Plan::Obj(fs) => count_delays(fs), Plan::List(items) => items.iter().map(|(d, q)| d + p(q)).sum(), _ => 0 } }
+    fn p(pl: &Plan) -> usize { match pl { Plan::Obj(fs) => count_delays(fs), Plan::List(items) => items.iter().map(|(d, q)| d + p(q)).sum(), Plan::ListTail(items, t) => t + items.iter().map(|(d, q)| d + p(q)).sum::<usize>(), _ => 0 } }
     fs.iter().map(|f| f.delay + p(&f.plan)).sum()
 }
 fn count_futures(fs: &[FieldPlan]) -> usize {
@@ -104,14 +113,19 @@ fn a_value<'a>(plan: &'a Plan, path: String, log: Log) -> Result<AsyncResolvedVa
         Plan::Leaf(v) => Ok(AsyncResolvedValue::Leaf((*v).into())),
         Plan::Error => Err(FieldError { message: "planned error".into() }),
         Plan::Obj(fs) => Ok(AsyncResolvedValue::Object(Box::new(AObj { fields: fs, path, log }))),
-        Plan::List(items) => Ok(AsyncResolvedValue::List(Box::pin(ItemStream { items, idx: 0, remaining: items.first().map(|i| i.0).unwrap_or(0), path, log }))),
+        Plan::List(items) => Ok(AsyncResolvedValue::List(Box::pin(ItemStream { items, idx: 0, remaining: items.first().map(|i| i.0).unwrap_or(0), tail: 0, path, log }))),
+        Plan::Null => Ok(AsyncResolvedValue::null()),
+        Plan::ListTail(items, t) => Ok(AsyncResolvedValue::List(Box::pin(ItemStream { items, idx: 0, remaining: items.first().map(|i| i.0).unwrap_or(0), tail: *t, path, log }))),
     }
 }
-struct ItemStream<'a> { items: &'a [(usize, Plan)], idx: usize, remaining: usize, path: String, log: Log }
+struct ItemStream<'a> { items: &'a [(usize, Plan)], idx: usize, remaining: usize, tail: usize, path: String, log: Log }
 impl<'a> Stream for ItemStream<'a> {
     type Item = Result<AsyncResolvedValue<'a>, FieldError>;
     fn poll_next(mut self: Pin<&mut Self>, cx: &mut Context<'_>) -> Poll<Option<Self::Item>> {
-        if self.idx >= self.items.len() { return Poll::Ready(None); }
+        if self.idx >= self.items.len() {
+            if self.tail > 0 { self.tail -= 1; cx.waker().wake_by_ref(); return Poll::Pending; }
+            return Poll::Ready(None);
+        }
         if self.remaining > 0 { self.remaining -= 1; cx.waker().wake_by_ref(); return Poll::Pending; }
         let i = self.idx;
         self.idx += 1;
@@ -151,7 +165,8 @@ fn s_value<'a>(plan: &'a Plan, path: String, log: Log) -> Result<ResolvedValue<'
         Plan::Leaf(v) => Ok(ResolvedValue::leaf(*v)),
         Plan::Error => Err(FieldError { message: "planned error".into() }),
         Plan::Obj(fs) => Ok(ResolvedValue::object(SObj { fields: fs, path, log, ty: "T" })),
-        Plan::List(items) => {
+        Plan::Null => Ok(ResolvedValue::null()),
+        Plan::List(items) | Plan::ListTail(items, _) => {
             let it = items.iter().enumerate().map(move |(i, (_, p))| {
                 log.lock().unwrap().push(format!("{path}/{i}#"));
                 s_value(p, format!("{path}/{i}"), log.clone())
@@ -179,6 +194,13 @@ fn data_text(resp: &apollo_compiler::response::ExecutionResponse) -> String {
 }
 
 fn one(ctx: &mut Ctx, schema: &Valid<Schema>, mutation: bool, shape: &Shape, world: &[FieldPlan]) {
+    one_m(ctx, schema, mutation, shape, world, true)
+}
+
+/// `model`: the plan is in the Lean model's language (all positions nullable, no item errors, no trailing
+/// stream delay) and goes to the correspondence stream; otherwise only the oracle (async = sync, wake-ups,
+/// serial root fields) is evaluated
+fn one_m(ctx: &mut Ctx, schema: &Valid<Schema>, mutation: bool, shape: &Shape, world: &[FieldPlan], model: bool) {
     let src = format!("{} {}", if mutation { "mutation" } else { "query" }, shape_text(shape));
     let Ok(doc) = ExecutableDocument::parse_and_validate(schema, &src, "q.graphql") else { ctx.stat("invalid_generated"); return };
     let Ok(op) = doc.operations.get(None) else { return };
@@ -216,10 +238,17 @@ fn one(ctx: &mut Ctx, schema: &Valid<Schema>, mutation: bool, shape: &Shape, wor
         Ok(None) => { ctx.fail("async-does-not-complete", &input, &format!("still Pending after {pendings} polls (planned {})", count_delays(world))); return }
         Err(m) => { ctx.fail("async-panic", &input, &m); return }
     };
+    if !model {
+        if aresp.data.is_none() { ctx.stat("extended:data_null"); }
+        if !aresp.errors.is_empty() { ctx.stat("extended:with_field_errors"); }
+        if aresp.errors.iter().any(|e| matches!(e.path.last(), Some(apollo_compiler::response::ResponseDataPathSegment::ListIndex(_)))) { ctx.stat("extended:error_at_list_item"); }
+    }
     if lost_wake { ctx.fail("pending-without-wake", &input, "execute_async returned Pending although no waker was invoked"); }
     let alog_v = alog.lock().unwrap().clone();
     let atext = data_text(&aresp);
-    ctx.case("c27.exec", &[format!("={enc}")], &format!("{atext}|{}|{pendings}", alog_v.join(",")));
+    if model { ctx.case("c27.exec", &[format!("={enc}")], &format!("{atext}|{}|{pendings}", alog_v.join(","))); } else { ctx.stat("oracle_only"); }
+    // every planned pending poll is observed exactly once when nothing is cut short by a propagated null
+    if !model && pendings > count_delays(world) { ctx.fail("async-more-pending-than-planned", &input, &format!("{pendings} Pending polls, {} planned", count_delays(world))); }
     // equivalent synchronous world
     let slog: Log = Arc::new(Mutex::new(vec![]));
     let sroot = SObj { fields: world, path: String::new(), log: slog.clone(), ty };
@@ -252,6 +281,66 @@ fn one(ctx: &mut Ctx, schema: &Valid<Schema>, mutation: bool, shape: &Shape, wor
     ctx.stat_n("pending_polls", pendings as u64);
 }
 
+// ---------- extended requests (audit G5): non-null positions, null values, item-stream errors, nested lists,
+// a stream that is pending before it ends.  The Lean plan language has none of these, so these cases are
+// oracle-only: async response / error paths / call log = sync ones, every Pending has a wake-up, root
+// fields of a mutation are serial. ----------
+const SCHEMA_X: &str = "type Query { a: Int na: Int! b: T nb: T! c: [T] nc: [T!] ncn: [T!]! d: [Int] nd: [Int!] dd: [[Int!]] e: T }
+type Mutation { a: Int na: Int! b: T nb: T! c: [T] nc: [T!] ncn: [T!]! d: [Int] nd: [Int!] dd: [[Int!]] e: T }
+type T { a: Int na: Int! b: T nb: T! c: [T] nc: [T!] ncn: [T!]! d: [Int] nd: [Int!] dd: [[Int!]] e: T }";
+
+fn gen_shape_x(r: &mut Rng, depth: usize, budget: &mut usize) -> Shape {
+    let n = 1 + r.below(4);
+    let mut fields = vec![];
+    let mut used = vec![];
+    for _ in 0..n {
+        if *budget == 0 { break; }
+        let fname = *r.pick(if depth >= 3 { &["a", "na", "d", "nd", "dd"][..] } else { &["a", "na", "b", "nb", "c", "nc", "ncn", "d", "nd", "dd", "e"][..] });
+        let key = if r.chance(1, 4) { format!("k{}", r.below(3)) } else { fname.to_string() };
+        if used.contains(&key) { continue; }
+        used.push(key.clone());
+        *budget -= 1;
+        let sub = if matches!(fname, "b" | "nb" | "c" | "nc" | "ncn" | "e") { Some(gen_shape_x(r, depth + 1, budget)) } else { None };
+        fields.push((key, fname.to_string(), sub));
+    }
+    if fields.is_empty() { fields.push(("a".into(), "a".into(), None)); }
+    Shape { fields }
+}
+
+/// `bad`: per-mille rate of a null / an error at each position
+fn gen_world_x(r: &mut Rng, s: &Shape, bad: u32, delay: &mut dyn FnMut(&mut Rng) -> usize) -> Vec<FieldPlan> {
+    fn leaf(r: &mut Rng, bad: u32) -> Plan {
+        if r.chance(bad, 1000) { Plan::Null } else if r.chance(bad, 1000) { Plan::Error } else { Plan::Leaf(r.below(100) as u64) }
+    }
+    s.fields.iter().map(|(key, fname, sub)| {
+        let d = delay(r);
+        let plan = match (fname.as_str(), sub) {
+            ("a" | "na", _) => leaf(r, bad),
+            ("d" | "nd", _) => if r.chance(bad, 2000) { Plan::Error } else if r.chance(bad, 2000) { Plan::Null } else {
+                let n = r.below(4);
+                Plan::ListTail((0..n).map(|_| (delay(r), leaf(r, bad))).collect(), delay(r))
+            },
+            ("dd", _) => {
+                let n = r.below(3);
+                Plan::ListTail((0..n).map(|_| {
+                    let inner = if r.chance(bad, 2000) { Plan::Null } else { let m = r.below(3); Plan::ListTail((0..m).map(|_| (delay(r), leaf(r, bad))).collect(), delay(r)) };
+                    (delay(r), inner)
+                }).collect(), delay(r))
+            }
+            ("c" | "nc" | "ncn", Some(sub)) => if r.chance(bad, 2000) { Plan::Null } else {
+                let n = r.below(3);
+                Plan::ListTail((0..n).map(|_| {
+                    let item = if r.chance(bad, 1000) { Plan::Null } else if r.chance(bad, 1000) { Plan::Error } else { Plan::Obj(gen_world_x(r, sub, bad, delay)) };
+                    (delay(r), item)
+                }).collect(), delay(r))
+            },
+            (_, Some(sub)) => if r.chance(bad, 1000) { Plan::Error } else if r.chance(bad, 1000) { Plan::Null } else { Plan::Obj(gen_world_x(r, sub, bad, delay)) },
+            _ => Plan::Error,
+        };
+        FieldPlan { key: key.clone(), delay: d, plan }
+    }).collect()
+}
+
 pub fn run(ctx: &mut Ctx) {
     let schema = Schema::parse_and_validate(SCHEMA, "s.graphql").expect("schema");
     // exhaustive: every assignment of 0/1/2 pending polls to the futures of small worlds
@@ -271,6 +360,35 @@ pub fn run(ctx: &mut Ctx) {
             one(ctx, &schema, si % 2 == 1, &shape, &world);
         }
         ctx.stat("exhaustive_shapes");
+    }
+    // extended requests (oracle-only): exhaustive 0/1 pending assignments on small worlds with a failure, then random
+    let schema_x = Schema::parse_and_validate(SCHEMA_X, "sx.graphql").expect("schema x");
+    let n_shapes_x = if ctx.thorough { 120 } else { 30 };
+    for si in 0..n_shapes_x {
+        let mut r = Rng(5000 + si as u64);
+        let mut budget = 4usize;
+        let shape = gen_shape_x(&mut r, 1, &mut budget);
+        let mut n_delays = 0usize;
+        { let mut r2 = Rng(99 + si as u64); let _ = gen_world_x(&mut r2, &shape, 250, &mut |_| { n_delays += 1; 0 }); }
+        if n_delays > 8 { continue; }
+        for code in 0..(1usize << n_delays) {
+            let mut c = code;
+            let mut r2 = Rng(99 + si as u64);
+            let world = gen_world_x(&mut r2, &shape, 250, &mut |_| { let d = c % 2; c /= 2; d });
+            one_m(ctx, &schema_x, si % 2 == 1, &shape, &world, false);
+        }
+        ctx.stat("extended_exhaustive_shapes");
+    }
+    let n = if ctx.thorough { 30_000 } else { 1_500 };
+    for i in 0..n {
+        let mut r = Rng(ctx.rng.next());
+        let mut budget = 3 + r.below(8);
+        let shape = gen_shape_x(&mut r, 0, &mut budget);
+        let maxd = 1 + r.below(3);
+        let bad = *r.pick(&[0u32, 60, 150, 300]);
+        let world = gen_world_x(&mut r, &shape, bad, &mut |r| if r.chance(1, 2) { 0 } else { r.below(maxd + 1) });
+        ctx.stat("extended_random");
+        one_m(ctx, &schema_x, i % 3 == 0, &shape, &world, false);
     }
     // random beyond
     let n = if ctx.thorough { 30_000 } else { 2_500 };
